@@ -44,7 +44,7 @@ PROPS = {
     "C03": dict(
         title="Exactly min(T, confirmed) distinct winners",
         lean=["LP.Props.C03base", "LP.Props.C03final", "LP.Props.C01reach", "LP.Props.C01reachV2", "LP.Props.C01reachV1", "LP.Props.C01reachG1", "LP.Props.C14reach"],
-        profiles=[("life", ALL_VARIANTS), ("fy", ["base", "guarV2"]), ("chunks", GUAR)],
+        profiles=[("life", ALL_VARIANTS), ("fy", ["base", "guarV2"]), ("chunks", GUAR), ("topup", GUAR)],
         R={"ret": {"select", "distribute", "secondary"}},
         D={"nrw": SELECT_EPS, "status": SELECT_EPS, "cpay": SELECT_EPS, "last": SELECT_EPS, "addr.win": SELECT_EPS,
            "views": ANY},
@@ -103,14 +103,14 @@ PROPS = {
     "C11": dict(
         title="Guarantees honoured with the holder's own tickets",
         lean=["LP.Props.C11topup", "LP.Props.C01reachV2", "LP.Props.C01reachV1", "LP.Props.C01reachG1"],
-        profiles=[("life", GUAR), ("chunks", GUAR)],
+        profiles=[("topup", GUAR), ("life", GUAR), ("chunks", GUAR)],
         R={"ret": {"distribute", "secondary"}},
         D={"status": {"distribute", "secondary"}, "addr.win": {"distribute", "secondary"}},
     ),
     "C12": dict(
         title="Guarantee reserve conserved; leftovers re-drawn",
         lean=["LP.Props.C12reserve", "LP.Props.C03final", "LP.Props.C01reachV2", "LP.Props.C01reachV1", "LP.Props.C01reachG1"],
-        profiles=[("reserve", GUAR), ("life", GUAR), ("chunks", GUAR)],
+        profiles=[("reserve", GUAR), ("topup", GUAR), ("life", GUAR), ("chunks", GUAR)],
         R={"st": [(ALLOC_EPS | BL_EPS, RESERVE_MSGS), ({"deposit"}, ["Wrong amount"])],
            "draws": {"distribute", "secondary"}},
         D={"nrw": ALLOC_EPS | BL_EPS | {"distribute", "secondary"}, "tg": ANY, "wl": ALLOC_EPS | BL_EPS,
